@@ -118,6 +118,20 @@ pub fn cases(seed: u64, n_random: usize) -> Vec<Case> {
             }
         }
     }
+    // delta launches a command whose output it does not parse as anything special (`delta git status`,
+    // `delta git ls-files`, ...): nothing is published for such a command, and the lines still go
+    // through handlers that ask for the calling process - the answer must come from somewhere
+    for (cmd, delay) in [(vec!["git", "status"], 0i64), (vec!["git", "ls-files"], 0), (vec!["git", "stash", "list"], 600), (vec!["git", "branch", "-a"], 0), (vec!["git", "-c", "color.ui=always", "status", "--short"], 600)] {
+        for paging in ["never", "always"] {
+            let mut args: Vec<String> = vec!["--no-gitconfig".into(), "--width".into(), "100".into(), "--paging".into(), paging.into()];
+            args.extend(cmd.iter().map(|x| x.to_string()));
+            let mut spec = base(args);
+            let text = "On branch T000900\nChanges not staged for commit:\n\tmodified:   src/T000901.rs\n\nno changes added to commit\nsrc/main.rs\n";
+            spec.child = Some(ChildSetup { names: vec!["git".into(), "rg".into()], stdout: text.to_string().into(), stderr: simcore::text::Blob::default(), stderr_first: false, exit: 0, git_version: "git version 2.45.1".into() });
+            spec.plan.scan_delay_ms = delay;
+            out.push(Case { name: format!("launched command that is not parsed: {:?}, paging {}", cmd, paging), spec, expect_exit: 0, tokens: vec![900, 901], group: String::new(), must_highlight: false });
+        }
+    }
     // the main thread is done while the scan is still running (one-shot flags, empty input, an
     // error exit): it must leave, with the right status, whatever the scanning thread is doing
     for (args, exit) in [(vec!["--show-config"], 0), (vec!["--version"], 0), (vec!["--list-languages"], 0), (vec!["--no-gitconfig"], 0), (vec!["--no-gitconfig", "--width", "nonsense"], 2)] {
